@@ -307,6 +307,7 @@ def check_property(prop, tier, seed, replay=None):
     dist = {}
     disagreements = []   # dicts
     nontrivial = cfg.get("nontrivial", lambda req, out: True)
+    xref = {}
     if ok_drv:
         for v in built:
             extra_env = v.get("env")
@@ -330,8 +331,15 @@ def check_property(prop, tier, seed, replay=None):
                 continue
             vname = feat_key(v["features"]) + ("+" + ",".join(f"{k}={x}" for k, x in (extra_env or {}).items()) if extra_env else "")
             canon = cfg.get("canon")
+            xops = set(cfg.get("xvariant_ops", []))
             for rq, im, mo in zip(reqs, impl, model):
                 evaluations += 1
+                if xops and " " in rq and rq.split(" ", 2)[1] in xops:
+                    # implementation-vs-implementation across build/dispatch variants: the first
+                    # variant's answer is the reference for every later variant; the driver's
+                    # answer for these ops is not compared.
+                    ref = xref.setdefault(rq, (vname, im))
+                    mo = ref[1]
                 op = rq.split(" ", 2)[1] if " " in rq else rq
                 dist[op] = dist.get(op, 0) + 1
                 if nontrivial(rq, im):
